@@ -219,3 +219,32 @@ def carries(text):
         if d:
             out.append((d, m.group(3).lower()))
     return out
+
+
+def to_xexp(term):
+    """the same term in the constructors of coq/Xexp.v"""
+    def L(n):
+        return '(XLine "%s")' % n
+    k = term[0]
+    if k in ('sum', 'sumfloor', 'sumceil0'):
+        e = L(term[1][0])
+        for n in term[1][1:]:
+            e = '(XAdd %s %s)' % (e, L(n))
+        if k == 'sumfloor':
+            e = '(XMax (XConst 0) %s)' % e
+        if k == 'sumceil0':
+            e = '(XMin (XConst 0) %s)' % e
+        return e
+    if k == 'sub':
+        return '(XSub %s %s)' % (L(term[1]), L(term[2]))
+    if k == 'subfloor':
+        return '(XMax (XConst 0) (XSub %s %s))' % (L(term[1]), L(term[2]))
+    if k == 'scale':
+        return to_aexp(term).replace('AScale', 'XScale').replace('ALine', 'XLine')
+    if k == 'min':
+        return '(XMin %s %s)' % (L(term[1]), L(term[2]))
+    if k == 'max':
+        return '(XMax %s %s)' % (L(term[1]), L(term[2]))
+    if k == 'carry':
+        return L(term[1])
+    raise ValueError(k)
